@@ -111,7 +111,110 @@ def run(e: Engine, rep: Report):
              'decoding error of the assembled reply) - a verdict on what has '
              'arrived of a line so far depends on how the stream was cut')
     w12(e, rep)
+    rep.rule('W13', 'the text is cut into wire lines with its terminator '
+             'appended on every path: what send_reply hands the line '
+             'pattern ends in a line break the writer itself added (a text '
+             'that already ends in a line break has an empty last line - '
+             'terminating it only "when needed" drops that line)')
+    w13(e, rep)
     rep.floor('W2', 4, 'framing agreement obligations')
+
+
+# --------------------------------------------------------------------- W13
+def w13(e: Engine, rep: Report):
+    ctx = e.method_ctx(IOC, 'send_reply')
+    g = e.build(ctx, raises=lambda b, n, r: set(),
+                inline=e.inline_same_self(deny=['buffered_send']),
+                max_depth=3)
+    where = ctx.func.qname
+    rep.functions.add(where)
+    mod = ctx.func.module
+
+    def term(x, fr):
+        # a line-break literal (or a module constant that is one)
+        if isinstance(x, ast.Name):
+            x = getattr(mod, 'globals', {}).get(x.id, x)
+        return isinstance(x, ast.Constant) and \
+            isinstance(x.value, bytes) and x.value in (b'\r\n', b'\n')
+
+    def terminated(x, fr, at, depth=0):
+        """True: `x` (evaluated at node `at`) ends in a line break the
+        writer appended on every path; False: on some path it does not;
+        None: not read"""
+        if depth > 5:
+            return None
+        if isinstance(x, ast.BinOp) and isinstance(x.op, ast.Add):
+            if term(x.right, fr):
+                return True
+            return terminated(x.right, fr, at, depth + 1)
+        if isinstance(x, ast.Call) and isinstance(x.func, ast.Attribute) \
+                and x.func.attr == 'join' and x.args and \
+                isinstance(x.args[0], (ast.Tuple, ast.List)) and \
+                x.args[0].elts and \
+                isinstance(x.func.value, ast.Constant) and \
+                x.func.value.value == b'':
+            last = x.args[0].elts[-1]
+            return True if term(last, fr) else terminated(
+                last, fr, at, depth + 1)
+        if isinstance(x, ast.Name):
+            q = path_of(x, fr)
+            defs = common.reaching_defs(g, at, q)
+            if not defs or any(d is None for d in defs):
+                return None
+            res = []
+            for d in defs:
+                a = d.ast
+                if isinstance(a, ast.AugAssign):
+                    res.append(True if isinstance(a.op, ast.Add) and
+                               term(a.value, d.frame) else
+                               (terminated(a.value, d.frame, d, depth + 1)
+                                if isinstance(a.op, ast.Add) else None))
+                elif isinstance(a, ast.Assign):
+                    res.append(terminated(a.value, d.frame, d, depth + 1))
+                else:
+                    res.append(None)
+            if any(r is False for r in res):
+                return False
+            return True if all(r is True for r in res) else None
+        if isinstance(x, ast.Call) and isinstance(x.func, ast.Attribute) \
+                and x.func.attr in ('encode', 'decode'):
+            return False          # the text as it was given
+        if isinstance(x, (ast.Attribute, ast.Constant)):
+            return False
+        return None
+    n = 0
+    for c in g.calls():
+        f = c.ast.func
+        if not (isinstance(f, ast.Attribute) and
+                f.attr in ('finditer', 'findall') and
+                isinstance(f.value, ast.Name) and c.ast.args):
+            continue
+        if c09._regex_ends_in_newline(e, mod.name, f.value.id) is not True:
+            continue
+        n += 1
+        rep.evaluations += 1
+        t = terminated(c.ast.args[0], c.frame, c)
+        if t is None:
+            rep.unknown('W13', where, 'text handed to the line pattern',
+                        'cannot read how `%s` is terminated' % ' '.join(
+                            ast.unparse(c.ast.args[0]).split())[:50],
+                        loc=c.loc())
+            continue
+        rep.check(t, 'W13', where, 'the text is terminated on every path '
+                  'before it is cut into lines',
+                  'send_reply cuts `%s` into lines with a pattern that needs '
+                  'a line break after each line, but appends that line '
+                  'break on some paths only: a text that ends in a line '
+                  'break loses its empty last line (it comes back without '
+                  'the line break), a text that needed one keeps it - the '
+                  'two no longer differ on the wire' % ' '.join(
+                      ast.unparse(c.ast.args[0]).split())[:50], loc=c.loc(),
+                  reason='terminator appended unconditionally')
+    if n == 0:
+        # (a writer that cuts with split() has no such obligation)
+        rep.ok('W13', where, 'no pattern-based cut of the text',
+               reason='send_reply does not use a line pattern',
+               nontrivial=False)
 
 
 # --------------------------------------------------------------------- W12
